@@ -120,7 +120,9 @@ fn cmd_run(args: &[String]) -> i32 {
 
 fn cmd_replay(args: &[String]) -> i32 {
     let path = &args[2];
-    harness::install_panic_hook();
+    if std::env::var("VERIF_LOUD_PANIC").is_err() {
+        harness::install_panic_hook();
+    }
     let text = match std::fs::read_to_string(path) {
         Ok(t) => t,
         Err(e) => {
